@@ -166,12 +166,63 @@ def job_pipe(item):
     S.absorb_engine(eng)
     return S
 
-def task(item): return job_pipe(item[1:]) if item[0] == 'pipe' else job_ast(item[1:])
+BOOL_T = ['a < b', 'a == b', 'a >= b', 'a', 'a != b', 'a > `0`', 'a <= b', 'a.b', '!a', 'a || b', 'a && b', '`null`', 'a[?b]', 'missing', 'type(@)', 'a[0]', 'a < `1` || b']
+def job_bool(item):
+    """'!(L)', '(L) && (R)', '(L) || (R)' through the real parser == the truth-table combination of search(L, d) and search(R, d)"""
+    form, ltxt, rtxt, ddepth, deadline = item
+    prog = PROG; eng = Engine(prog); eng.deadline = deadline; S = Summary(); XP.init_decls(prog)
+    ex0 = PathExec(eng, []); rtc = XP.mk_runtime(ex0)
+    whole = f'!({ltxt})' if form == 'not' else f'({ltxt}) && ({rtxt})' if form == 'and' else f'({ltxt}) || ({rtxt})'
+    asts = []
+    for t in (whole, ltxt, rtxt):
+        r = XP.parse_expr(ex0, t)
+        if r.variant != 'Ok': S.inconclusive(f'bool: {t!r} does not compile'); return S
+        asts.append(r.fields[0].v)
+    dspec = SY.DocSpec(depth=ddepth, A=2, keys=('a', 'b'), strs=('', 'a'), nums=[0, 1, -1])
+    def body(ex):
+        doc = SY.sym_variable(ex, dspec); ex.doc = doc; data = SY.rc(doc)
+        got = XP.interpret(ex, asts[0], data, whole, rtc)
+        l = XP.interpret(ex, asts[1], data, ltxt, rtc)
+        if l.variant == 'Err': return None if got.variant == 'Err' else 'left part fails, whole does not'
+        lv = l.fields[0].v; t = ER.truthy(ex, lv)
+        if form == 'not': want = ER.mkbool(not t)
+        elif (form == 'and') == bool(t):
+            r = XP.interpret(ex, asts[2], data, rtxt, rtc)
+            if r.variant == 'Err': return None if got.variant == 'Err' else 'right part fails, whole does not'
+            want = r.fields[0].v
+        else: want = lv
+        if got.variant == 'Err': return 'whole fails, parts do not'
+        ex.u_want = want
+        return ER.same(ex, got.fields[0].v, want)
+    def on_path(ex, r):
+        S['paths'] += 1; S['outcomes'][r[0]] += 1
+        if r[0] in ('abort',): return
+        if r[0] == 'unsupported': S.inconclusive(f'bool {whole!r}: ' + XP.short_unsupported(r[1])); return
+        acc = []; SY.lazy_null_constraints(ex.doc, acc)
+        sat, m = SY.check_pinned(eng, ex.pc, acc)
+        if not sat: return
+        d = SY.tagged(ex, ex.doc, m)
+        req = {'op': 'boolform', 'form': form, 'L': ltxt, 'R': rtxt, 'doc': d}
+        if r[0] == 'panic': S.cand('search-panic', f'search panics: {r[1]}', {'expr': whole, 'doc': d}, {'op': 'search', 'expr': whole, 'doc': d}, expected='no panic'); return
+        if r[1] is not None:
+            S.cand('c11:bool-not-compositional', f'{whole}: {r[1]}', {'expr': whole, 'doc': d, 'L': ltxt, 'R': rtxt}, req, expected='equal'); return
+        S['vacuity'][f'{form} composes'] = True
+        if (S['paths'] + SEED) % 9 == 0:
+            a = XP.worker_native().request(req)
+            if a.get('kind') == 'ok' and a.get('equal'): S['replayed'] += 1
+            else: S['mismatches'].append({'bool': whole, 'doc': d, 'native': a})
+            S.sample({'expr': whole, 'doc': d}, cap=1)
+    n, rest = eng.explore(body, on_path, max_paths=20000)
+    if rest: S.inconclusive(f'bool {whole!r}: cap/deadline after {n} paths')
+    S.absorb_engine(eng)
+    return S
+
+def task(item): return job_pipe(item[1:]) if item[0] == 'pipe' else job_bool(item[1:]) if item[0] == 'bool' else job_ast(item[1:])
 
 def confirm(c, nd, nr):
     obs = {'dev': nd.request(c['request']), 'release': nr.request(c['request'])}
     if c['key'].endswith('panic'): return any(o.get('kind') in ('panic', 'abort', 'hang') for o in obs.values()), obs
-    if c['request']['op'] == 'pipe': return any(o.get('kind') != 'ok' or not o.get('equal') for o in obs.values()), obs
+    if c['request']['op'] in ('pipe', 'boolform'): return any(o.get('kind') != 'ok' or not o.get('equal') for o in obs.values()), obs
     exp = c['expected']
     def same(o):
         if exp[0] == 'err': return o.get('kind') == 'err' and o.get('reason_kind') == exp[1]
@@ -198,8 +249,16 @@ def run(run):
     ls = [PIPE_L[(i + run.seed) % len(PIPE_L)] for i in range(nl)]; rs = [PIPE_R[(i * 5 + run.seed) % len(PIPE_R)] for i in range(nl)] if quick else PIPE_R
     if quick: ls = list(dict.fromkeys(ls + ['missing'])); rs = list(dict.fromkeys(rs + ['type(@)', 'a.type(@)']))       # a null left side with a right side that is not null on null: always
     jobs += [('pipe', l, r, 2 if ('==' not in l + r) else 1, dl) for l in ls for r in rs]
+    dd = lambda *ts: 1 if any(c in t for t in ts for c in '<>=') else 2
+    nb = 7 if quick else len(BOOL_T)
+    bt = list(dict.fromkeys(['a < b', 'a == b'] + [BOOL_T[(i + run.seed) % len(BOOL_T)] for i in range(nb - 2)])) if quick else BOOL_T
+    jobs += [('bool', 'not', t, '@', dd(t), dl) for t in bt]
+    bp = [(bt[i], bt[(i * 3 + 1 + run.seed) % len(bt)]) for i in range(len(bt))] if quick else [(l, r) for l in BOOL_T for r in BOOL_T[::2]]
+    jobs += [('bool', f, l, r, dd(l, r), dl) for f in ('and', 'or') for l, r in bp]
+    nbool = len(bt) + 2 * len(bp)
     run.bounds = {'AST level': 'every compound node kind over lazily initialised parts of height ' + ('1' if quick else '1 (all leaf kinds) and 2 (sharded)') + ' (leaf kinds Identity, Field{a,b}, Index any i32 in the lexer range, Literal scalar' + ('' if quick else ', Slice symbolic') + '); documents depth 2, arrays <= 2',
-                  'parsed level': f'(L) | (R) for {len(ls)} x {len(rs)} expression texts through the real parser, documents depth 2'}
+                  'parsed level': f'(L) | (R) for {len(ls)} x {len(rs)} expression texts through the real parser, documents depth 2',
+                  'parsed boolean forms': f"'!(L)' for {len(bt)} texts and '(L) && (R)', '(L) || (R)' for {len(bp)} text pairs each ({nbool} jobs) through the real parser against the truth-table combination of the separately searched parts; documents depth 2 (1 when a comparator is involved)"}
     run.outside = ['parts deeper than the bounds; the parts themselves are evaluated by the implementation (C01 decides what parts mean)']
     run.assumes = ['combination rules as written in the property text (harness/c11.py combine)']
     run_jobs(run, jobs, task, 'mirsym: compound form vs combination of its separately evaluated parts')
